@@ -302,6 +302,7 @@ impl UnusedVariableVisitor {
     fn process_unused_type_params(
         &mut self,
         type_param_info: &TypeParamInfo,
+        type_params_start: usize,
         open_paren: &Position,
     ) {
         let params = &type_param_info.params;
@@ -336,13 +337,13 @@ impl UnusedVariableVisitor {
             let name_position = tp.position.clone();
 
             let removal_position = if all_unused {
-                // Remove entire <...> section. The `<` is right before the first
-                // type param, and `>` is right after the last one (before open paren).
+                // Remove entire <...> section, which is everything between the
+                // function name (or the `fun` keyword) and the open paren. There
+                // may be whitespace after `<` or before `>`.
                 let first_tp = &params[0].0;
                 let last_tp = &params[params.len() - 1].0;
                 Position {
-                    // Start at `<` which is one char before the first type param
-                    start_offset: first_tp.position.start_offset - 1,
+                    start_offset: type_params_start,
                     // End at `>` which is right before the open paren
                     end_offset: open_paren.start_offset,
                     line_number: first_tp.position.line_number,
@@ -514,7 +515,15 @@ impl Visitor for UnusedVariableVisitor {
         self.pop_scope();
 
         let type_param_info = self.type_param_info.pop().unwrap();
-        self.process_unused_type_params(&type_param_info, &fun_info.params.open_paren);
+        let type_params_start = match &fun_info.name_sym {
+            Some(name_sym) => name_sym.position.end_offset,
+            None => fun_info.pos.start_offset + "fun".len(),
+        };
+        self.process_unused_type_params(
+            &type_param_info,
+            type_params_start,
+            &fun_info.params.open_paren,
+        );
     }
 
     fn visit_expr_variable(&mut self, var: &Symbol) {
